@@ -482,6 +482,7 @@ func runC20(ctx *Ctx) {
 	}
 	c20purity(ctx)
 	c20derived(ctx)
+	c20conc(ctx)
 	if ctx.Thorough {
 		c20race(ctx)
 	}
